@@ -543,6 +543,8 @@ Section Run.
             match assoc_get (w_templates wd) name with
             | None => fail ErrOther     (* must_get_template: TemplateNotFound *)
             | Some t2 =>
+                (* like render_to, an included template that extends others runs from its root
+                   ancestor's chunk (commit bb3c5f3) *)
                 let inc := {| stack := []; loops := []; setvars := []; caps := []; blocks := [];
                               cur_block := None; parent := Some (scope_of s); context := context s;
                               global := None; capture_block := None; block_buffer := [] |} in
@@ -550,13 +552,13 @@ Section Run.
                    buffer (taken out of the state for the duration) or the output *)
                 match caps s with
                 | [] =>
-                    match run f t2 ae depth (t_chunk t2) 0 inc o with
+                    match run f t2 ae depth (t_root_chunk t2) 0 inc o with
                     | RDone _ o1 => next s o1
                     | RFail e => fail e
                     | ROutOfFuel => ROutOfFuel
                     end
                 | c :: ct =>
-                    match run f t2 ae depth (t_chunk t2) 0 inc (SinkBuf c) with
+                    match run f t2 ae depth (t_root_chunk t2) 0 inc (SinkBuf c) with
                     | RDone _ (SinkBuf c1) => next (upd_caps s (c1 :: ct)) o
                     | RDone _ (SinkTop _) => fail ErrPanic
                     | RFail e => fail e
@@ -699,10 +701,10 @@ Section Run.
                 let is_captured := match capture_block s with Some cbn => str_eqb cbn bname | None => false end in
                 if is_captured then
                   (* rendered into a fresh buffer that becomes block_buffer; the capture stack is
-                     NOT detached here (unlike super()) *)
-                  match run f tpl ae depth bchunk 0 s1 (SinkBuf []) with
+                     detached for the duration, as for super() (commit 3368fbc) *)
+                  match run f tpl ae depth bchunk 0 (upd_caps s1 []) (SinkBuf []) with
                   | RDone s2 (SinkBuf text) =>
-                      next (upd_block_buffer (upd_blocks s2 (tl (blocks s2)) (cur_block s)) text) o
+                      next (upd_block_buffer (upd_caps (upd_blocks s2 (tl (blocks s2)) (cur_block s)) (caps s)) text) o
                   | RDone _ (SinkTop _) => fail ErrPanic
                   | RFail e => fail e
                   | ROutOfFuel => ROutOfFuel
